@@ -2,7 +2,7 @@
    Property theorems only; proofs in RangeProofs.v and WindowProofs.v. *)
 From Coq Require Import List ZArith NArith Bool.
 From Verif Require Import Base Select SelectProofs Range RangeProofs WindowProofs.
-From Verif Require RangeFns RangeFnsProofs.
+From Verif Require RangeOrd RangeFnsProofs.
 Import ListNotations.
 Open Scope Z_scope.
 
@@ -61,25 +61,25 @@ Theorem C03_max_over_time :
   (forall a b, isnan b = true -> lt a b = false) ->
   (forall a, lt a a = false) ->
   (forall a b c, lt a b = true -> lt b c = true -> lt a c = true) ->
-  forall first rest, RangeFnsProofs.is_max V lt isnan (RangeFns.max_over V lt isnan first rest) (first :: rest).
+  forall first rest, RangeFnsProofs.is_max V lt isnan (RangeOrd.max_over V lt isnan first rest) (first :: rest).
 Proof. exact RangeFnsProofs.max_over_spec. Qed.
 Print Assumptions C03_max_over_time.
 
 Theorem C03_min_is_max_reversed : forall V lt isnan first rest,
-  RangeFns.min_over V lt isnan first rest = RangeFns.max_over V (fun a b => lt b a) isnan first rest.
+  RangeOrd.min_over V lt isnan first rest = RangeOrd.max_over V (fun a b => lt b a) isnan first rest.
 Proof. exact RangeFnsProofs.min_is_max_flipped. Qed.
 Print Assumptions C03_min_is_max_reversed.
 
 (* resets / changes count the adjacent pairs of the window that decrease / differ
    (two NaN do not differ) *)
 Theorem C03_resets : forall V lt prev rest,
-  RangeFns.resets_from V lt prev rest =
+  RangeOrd.resets_from V lt prev rest =
   length (filter (fun pv : V * V => lt (snd pv) (fst pv)) (RangeFnsProofs.adjacent prev rest)).
 Proof. exact RangeFnsProofs.resets_spec. Qed.
 Print Assumptions C03_resets.
 
 Theorem C03_changes : forall V isnan eqb prev rest,
-  RangeFns.changes_from V isnan eqb prev rest =
+  RangeOrd.changes_from V isnan eqb prev rest =
   length (filter (fun pv : V * V => negb (eqb (snd pv) (fst pv)) && negb (isnan (snd pv) && isnan (fst pv)))
                  (RangeFnsProofs.adjacent prev rest)).
 Proof. exact RangeFnsProofs.changes_spec. Qed.
